@@ -692,7 +692,8 @@ DECODER_API = {"get_response_correlation_id": "corr", "decode_api_versions_respo
                "decode_consumermetadata_response": "coordinator", "decode_offset_commit_response": "commit",
                "decode_offset_fetch_response": "ofetch", "decode_join_group_protocol_metadata": "subscription",
                "decode_join_group_response": "join", "decode_leave_group_response": "leave", "decode_heartbeat_response": "heartbeat",
-               "decode_sync_group_response": "sync", "decode_sync_group_member_assignment": "assignment"}
+               "decode_sync_group_response": "sync", "decode_sync_group_member_assignment": "assignment",
+               "msg__decode_message": "msgset", "msg__decode_message_set_iter": "msgset"}
 
 
 def translator_tie(ck):
@@ -723,7 +724,7 @@ def translator_tie(ck):
         ck.hist("translator_tie_intact")
     apis = {DECODER_API[k] for k in down if k in DECODER_API}
     if any(k.startswith("util_") for k in down):      # a primitive reader every decoder uses
-        apis |= set(DECODER_API.values())
+        apis |= {"util"}
     return apis
 
 
@@ -789,6 +790,9 @@ def run(ck):
         if api in tie_down:      # tie (A) is down for this decoder: tie (B) carries it on an enlarged sample
             n *= 4
             ck.hist("cases_added_because_translator_tie_is_down_" + api, 3 * n // 4)
+        elif "util" in tie_down:  # a reader every decoder uses: everything is enlarged, moderately
+            n = n * 3 // 2
+            ck.hist("cases_added_because_translator_tie_is_down_util", n // 3)
         for i in range(n):
             r = gen(g)
             for ver in ((VERSIONS[api][i % len(VERSIONS[api])],) if api in VERSIONS else (0,)):
@@ -847,7 +851,7 @@ def run(ck):
     def fetch_with(records, ver):
         return (rnd.randint(0, 99), 0, [(b"topic", [(0, 0, 1000, rec) for rec in records])])
 
-    nsets = 60 * scale
+    nsets = 60 * scale * (3 if ("msgset" in tie_down or "util" in tie_down) else 1)      # message-set tie (A) down: larger sample
     tree_cases, tree_impl = [], []
     for i in range(nsets):
         depth = rnd.choice([0, 1, 1, 2, 2] + ([3] if thorough else []))
